@@ -149,6 +149,12 @@ func IfScalarToSlice(value any) any {
 		return []int64{data}
 	case int:
 		return []int{data}
+	case uint16:
+		return []uint16{data}
+	case uint32:
+		return []uint32{data}
+	case uint64:
+		return []uint64{data}
 	case float32:
 		return []float32{data}
 	case float64:
